@@ -157,6 +157,20 @@ func (r *PgPreparedStatementRegistry) DeleteStatement(name string) error {
 	return nil
 }
 
+// DeleteNamedStatements removes every named prepared statement (with its cursors) from the registry: DEALLOCATE ALL.
+// The unnamed statement of the extended protocol is not touched, as in the database.
+func (r *PgPreparedStatementRegistry) DeleteNamedStatements() error {
+	for name := range r.statements {
+		if name == "" {
+			continue
+		}
+		if err := r.DeleteStatement(name); err != nil {
+			return err
+		}
+	}
+	return nil
+}
+
 // DeleteCursor removes a portals with given name from the registry.
 // It is not an error to remove nonexistent portals. In this case no error is returned and no action is taken.
 func (r *PgPreparedStatementRegistry) DeleteCursor(name string) error {
